@@ -211,4 +211,18 @@ def IExpr.substLast (b : Nat) : IExpr → IExpr
   | .bin op f l r => .bin op f (l.substLast b) (r.substLast b)
   | e => e
 
+/-- Does the expression read output `i` (its value, its length or one of its bytes)? -/
+def IExpr.readsOut (i : Nat) : IExpr → Bool
+  | .out j => i == j
+  | .len j => i == j
+  | .idx j e => i == j || e.readsOut i
+  | .bin _ _ l r => l.readsOut i || r.readsOut i
+  | _ => false
+
+/-- Forget which nodes were written as one n-ary chain (the value does not depend on it). -/
+def IExpr.unflat : IExpr → IExpr
+  | .idx i e => .idx i e.unflat
+  | .bin op _ l r => .bin op false l.unflat r.unflat
+  | e => e
+
 end Nmfu
